@@ -19,6 +19,11 @@ RULE = ("exhaustive: every op sequence of length <= 2 (quick) / 3 (thorough) ove
         "backlog before Start, deliveries, 0-3 publications left pending because the loop is busy, Stop() by the driver / the busy task / a listener / the other service's loop / not at all, publications and "
         "subscriptions after Stop() and after the loop has ended, second Start / Stop; service-random (every third random case): 8-50 ops over two run services, a channel centre, a direct centre and a light "
         "centre with every action issued either by the driver or by a loop goroutine; "
+        "probes (centres 6, 7 = user implementations of ILocalEventCenter registered at the global centre directly, each on its own goroutine; a probe can hold its own Subscribe / Unsubscribe "
+        "inside the global centre - after the lookup of the name's list, at the GetId() call the global centre makes on the centre object - while the other centres act): probe-exhaustive: every op "
+        "sequence of length <= 3 (quick) / 4 (thorough) over an 11-op alphabet (Subscribe / Unsubscribe of 6 and 7, the same calls of 6 held, release, global publication, GSubscribe / last Unsubscribe / Clear "
+        "of an ordinary centre for the same name) followed by release / publication / unsubscribe / publication; probe-random (120 quick / 1200 thorough): both probes, two names, two channel centres and a run "
+        "service, publications up to the queue cap; "
         "random: 8-50 ops over 4 local centres (direct + channel mode, "
         "SetLocalUseChan), the global centre and 2 light centres, listener programs of 0-3 re-entrant actions nested up to depth 2. "
         "Every listener invocation records the goroutine it ran on. "
@@ -27,6 +32,7 @@ TRUSTED_BASE = [
     "Coq 8.16.1 kernel + vm_compute (case evaluation, Examples); no native_compute",
     "hand translation utils/event/{localeventcenter,globaleventcenter}.go, utils/event/light/{lighteventcenter,list}.go (with hooks/C17-fix-1..4 applied) and utils/runservice/standardrunservice.go (Start: event selector on the loop goroutine; Stop: TimerMgr.Stop, EventCenter.Clear, RunService.Stop) -> C17/Model.v, measured by this correspondence run",
     "Go harness harness/c17 (scripted callbacks, per-case driver goroutine, real StandardRunService per service centre whose loop is kept busy inside a scheduler task between driver operations and released by ORun, watchdog that declares VDeadlock when all goroutines of the case are parked and made no progress for 0.4 s, shadow table used only to avoid ambiguous unsubscribe-by-callback), bin/check.py JSON->Coq term printer",
+    "probe centres: a Go type embedding a real LocalEventCenter whose GetId() can block once (interposition on the ILocalEventCenter interface the global centre works on; no hook in the code under test); the harness keeps a table of its own registrations only to decide whether probe queue lengths are logged after a publication",
     "goroutine identity is observed: ids parsed from runtime.Stack, mapped to tokens 0 = driver, 4/5 = the goroutine that runs the service's scheduler tasks (recognised by the runservice.(*RunService).loop frame before its first task), -1 = any other",
     "deliveries by a service's loop are not wrapped by the harness (the real event selector calls DoEvent): VDeq/VBegin of such a delivery are logged at its first listener invocation from what that listener sees (its name, the arguments behind its bound ones) and the number of events the loop has received so far (events put into the channel - len(channel), exact because only one goroutine of a case runs at a time); events received without any invocation are logged as a count (VSkip); what the loop silently receives after Stop() is not logged and the rest of its queue is discarded when the loop has ended",
     "the observed trace is used as the model's order oracle (it only chooses in which order a publication visits its snapshot = Go map iteration order); every theorem is proved for all oracles",
@@ -34,6 +40,7 @@ TRUSTED_BASE = [
 ]
 ASSUMPTIONS = [
     "subscribe / unsubscribe / clear / direct publication on a local or light centre are issued by its owning goroutine (the light centre is documented as not thread-safe; the repaired dispatch holds no lock while a listener runs); from any goroutine: GlobalEC.Publish, a channel-mode Publish (a send) and StandardRunService.Stop() - an action on a centre the acting goroutine does not own is otherwise not issued (VNop)",
+    "statement-level interleavings are covered inside GlobalEventCenter.Subscribe / Unsubscribe only, at the one point where the global centre calls the centre object (GetId: between list lookup and Store / Delete), and for probe centres only (LocalEventCenter.GSubscribe passes itself, which cannot be interposed); other interleavings inside the global or a local centre are not covered",
     "no two goroutines of a case run at the same time: while the driver (or the other service) acts, a started loop is busy inside a scheduler task, so publications racing a Stop() are covered at operation granularity (published before Stop() and still queued / after Stop() returned but before the loop ended / after the loop ended), not at the granularity of the statements inside Stop(); Stop() is called at most once per service and only after Start() (a second Stop() panics on the closed channel)",
     "callbacks are the scripted family: a finite program of subscribe/unsubscribe/clear/publish/global-publish actions, not run deeper than nesting level 2 (bounds the Go stack)",
     "an unsubscribe-by-callback whose target is ambiguous (several listeners with that code pointer in the list; the code leaves the choice to map order) is not issued",
@@ -51,5 +58,6 @@ LEVEL_TEXT = ("Machine-checked Coq theorems over all histories, all listener pro
               "subscription unless the queue holds 999; nothing blocks except a channel-mode send on a full queue; every listener invocation happens on the goroutine that owns "
               "its centre - the run service's loop from Start() until the loop has ended, the driver otherwise - for every history including teardown: events pending when Stop() is called "
               "(by a foreign goroutine, by the loop's own task or by a listener) are delivered by the loop before Stop() or dropped, never delivered elsewhere and never after the Clear() "
-              "inside Stop(); after Stop() nothing is received, subscribed, stopped or started again and the loop ends. The model is tied to the Go code by running "
+              "inside Stop(); after Stop() nothing is received, subscribed, stopped or started again and the loop ends; a Subscribe / Unsubscribe held inside the global centre has, once it returns, the sequential "
+              "outcome for every interleaving of the other centres' operations, and publications then reach exactly the registered centres. The model is tied to the Go code by running "
               "both on the same histories each run and comparing the complete event traces.")
